@@ -54,7 +54,7 @@ namespace c18
     const bool shrink = t.flag(1, 4) && em.k <= 2 && em.nested && std::string(em.name).find("lagrange") == 0;
     int pst[2]; for(int l = 0; l < 2; ++l) pst[l] = t.pick({4, 2, 2, 2, 1, 1, 1, 1});
     for(int l = 0; l < 2; ++l) if(md.components > 1 && (pst[l] == 4 || pst[l] == 5) && c.excl("c18-cmk-disconnected")) pst[l] = 2;
-    const int vcls_eff = (t.pick({1, 1, 3, 2, 4}) + 2) % 5;
+    const int vcls_eff = (t.pick({3, 2, 4, 1, 2}) + 2) % 5;
     int need = 2 * em.kq + ((!simplex && !md.affine) ? dim : 0); if(need < 1) need = 1;
     const std::string cub = "auto-degree:" + std::to_string(need + t.range(0, 3));
     double g[2][3]; for(int q = 0; q < 2; ++q) for(int k = 0; k < 3; ++k) g[q][k] = double(1 + t.range(0, 61)) / 64.0;
